@@ -127,7 +127,7 @@ pub fn guarded<T>(f: impl FnOnce() -> T) -> Result<T, Failure> {
         Err(_) => {
             let (msg, loc) = take_last_panic().unwrap_or_default();
             let short: String = msg.chars().take(120).collect();
-            if loc.contains("/verif/") {
+            if loc.contains("/verif/") || loc.starts_with("core/src/") {
                 Err(Failure::new("harness-panic", format!("harness panic: {msg} @ {loc}")))
             } else {
                 let file = loc.rsplit('/').next().unwrap_or("").split(':').next().unwrap_or("").to_string();
